@@ -7,6 +7,9 @@ alphabet, every deletion, every insertion, every truncation, every length/count/
 codec's field map x {0,1,true-1,true+1,2*true,max}; thorough: all pairs of such field edits), all inputs of length <= 2,
 all 24-byte headers over boundary command/length values -- each placed at several points of a session and followed
 by probes on the same connection, on a parked older session and on a new session.
+Datagram service: the real main.enip_srv_udp loop under a scripted recvfrom() (mc.sim.run_udp); one hostile datagram from peer A
+(one-edit neighbourhood of 4 valid datagrams, 1..24 surplus bytes after a complete frame, all 1-byte and 256 2-/24-byte
+datagrams) followed by valid datagrams from peer B and from A, whose replies must equal those of a fresh simulator.
 """
 import itertools
 import struct
@@ -20,6 +23,8 @@ RULE = ("one-edit (thorough: also two-field-edit) neighbourhood of 15 kinds of v
         "headers, x placements in a session; oracle: bounded steps (Python calls of the server thread <= K*(bytes+1), K = 4 x the "
         "largest per-byte cost seen on valid traffic), nothing escapes the connection runner, connection answered or closed, store "
         "unchanged unless the input contains a frame the reference decoder accepts as a well-formed write, other sessions correct. "
+        "datagram service (enip_srv_udp): the same neighbourhoods of 4 valid datagrams + 1..24 surplus bytes, each followed by valid "
+        "datagrams of two peers that must be answered exactly as on a fresh simulator. "
         "non-trivial = distinct hostile inputs that differ from every valid seed")
 BOUNDS = {
     "quick": "7 seed frames; substitution alphabet {00,FF,b^01,b^80}; all deletions, insertions of 00, truncations; all length-field "
@@ -369,6 +374,93 @@ def _run_hostile(hostile, placement, need_fo=False, probes=True, allowed=(), wan
     return bad
 
 
+# ------------------------------------------------------------------------------------------------------
+# datagram service (main.enip_srv_udp): one socket serves every peer, so what one peer's datagram leaves behind is what the
+# next peer's datagram meets.  script = [hostile from peer A] + [valid datagrams from peer B and from A]
+UDP_A, UDP_B = ("10.0.0.1", 1111), ("10.0.0.2", 2222)
+_udp = {}
+
+
+def udp_seeds():
+    a = R.symbolic("a")
+    out = {}
+    for name, pair in (("list_identity", R.list_identity(fmap=True)), ("list_services", R.list_services(fmap=True)),
+                       ("register", R.register(fmap=True)),
+                       ("rr_write", R.send_rr_data(SESSION, R.write_tag(a, R.INT, [1, 2, 3]), fmap=True))):
+        out[name] = (pair[0], pair[1].lengths())
+    return out
+
+
+def udp_probes():
+    return [(R.list_identity(), UDP_B), (R.list_services(), UDP_A), (R.list_identity(), UDP_A)]
+
+
+def udp_baseline():
+    """what the valid probe datagrams are answered on a simulator that has seen nothing else + the per-byte step cost of valid datagrams"""
+    if "base" not in _udp:
+        S = sim.Sim(CFG)
+        r = sim.run_udp(S, udp_probes(), step_cap=10 ** 7)
+        if r["escaped"] or r["blown"] or len(r["sent"]) != 3:
+            raise RuntimeError("harness: valid datagrams are not served: %r" % (r,))
+        _udp["base"] = [(rpy, to) for _i, rpy, to in r["sent"]]
+        worst = 0.0
+        for name, (data, _l) in udp_seeds().items():
+            S = sim.Sim(CFG)
+            rr = sim.run_udp(S, [(data, UDP_A)], step_cap=10 ** 7)
+            worst = max(worst, rr["steps"][0] / (len(data) + 1))
+        _udp["K"] = int(4 * worst) + 1
+        _udp["const"] = 4 * max(r["steps"]) + 20000
+    return _udp
+
+
+def run_udp_hostile(hostile, allowed=()):
+    bad = []
+    u = udp_baseline()
+    S = sim.Sim(CFG)
+    base_store = S.store()
+    budget = u["K"] * (len(hostile) + 80) + u["const"]
+    r = sim.run_udp(S, [(hostile, UDP_A)] + udp_probes(), step_cap=40 * budget)
+    if r["escaped"]:
+        bad.append(("udp:escaped-datagram-loop", "%s left enip_srv_udp: the datagram service is down" % r["escaped"]))
+    if r["blown"]:
+        bad.append(("udp:hang", "datagram service aborted after %d steps on a %d-byte datagram (budget %d)" % (max(r["steps"]), len(hostile), budget)))
+    elif r["steps"][0] > budget:
+        bad.append(("udp:superlinear-work", "%d steps for a %d-byte datagram exceeds the linear budget %d" % (r["steps"][0], len(hostile), budget)))
+    own = [(rpy, to) for i, rpy, to in r["sent"] if i == 0]
+    if len(own) > 1 or any(to != UDP_A for _r, to in own):
+        bad.append(("udp:hostile-datagram-replies", "one datagram from %r produced replies %r" % (UDP_A, own)))
+    for k, (want, to) in enumerate(u["base"]):
+        got = [(rpy, t) for i, rpy, t in r["sent"] if i == k + 1]
+        if got != [(want, to)]:
+            bad.append(("udp:other-datagram-wrong", "valid datagram #%d from %r after the hostile one: replies %r, on a fresh simulator %r"
+                        % (k + 1, to, [(g.hex(), t) for g, t in got], (want.hex(), to))))
+            break
+    store = S.store()
+    if store != base_store and store not in allowed and not contains_wellformed_write(hostile) \
+            and not explained_by_embedded_write(hostile, base_store, store):
+        bad.append(("store-changed-by-malformed-input", "datagram: store %r -> %r and the datagram contains no well-formed write request"
+                    % (base_store, store)))
+    return bad
+
+
+def udp_seed_effect(name):
+    if ("effect", name) not in _udp:
+        S = sim.Sim(CFG)
+        sim.run_udp(S, [(udp_seeds()[name][0], UDP_A)], step_cap=10 ** 7)
+        _udp[("effect", name)] = S.store()
+    return _udp[("effect", name)]
+
+
+def udp_inputs(name, tier):
+    data, lengths = udp_seeds()[name]
+    for label, hostile in edits(data, lengths, tier):
+        yield label, hostile
+    # a datagram longer than the frame it carries: 1..24 surplus bytes (a whole header's worth) of three kinds
+    for n in range(1, 25):
+        for fill in (b"\x00", b"\xff", data):
+            yield ("surplus", n, fill[0]), data + (fill * 24)[:n]
+
+
 def patch_conn(frame, conn_id):
     """SendUnitData seed: connection id lives at payload offset 6+2+4 = frame offset 36..40"""
     if len(frame) >= 40 and frame[0:2] == b"\x70\x00":
@@ -426,6 +518,39 @@ def _shard(acc, item, tier, seed, stop_at, counter):
             if _poisoned[0]:
                 return
         acc.sample({"hostile": data[:20] + b"\xff" + data[21:], "placement": placement, "fo": fo, "seed": name})
+    elif what == "udp":
+        _, name, k, K = item
+        allowed = (udp_seed_effect(name),)
+        data = udp_seeds()[name][0]
+        seen = set()
+        n = 0
+        for label, hostile in udp_inputs(name, tier):
+            if hostile in seen or hostile == data:
+                continue
+            seen.add(hostile)
+            n += 1
+            if n % K != k:
+                continue
+            counter[0] += 1
+            if stop_at is not None and counter[0] > stop_at:
+                return
+            acc.ev()
+            acc.ntc()
+            acc.outcome("udp:" + label[0])
+            for kk, m in run_udp_hostile(hostile, allowed):
+                acc.violation(kk, {"hostile": hostile, "udp": True, "seed": name, "label": list(label)}, m)
+        if k == 0:
+            for a in range(256):
+                for hostile in (bytes([a]), bytes([a, 0]), bytes([a]) * 24):
+                    counter[0] += 1
+                    if stop_at is not None and counter[0] > stop_at:
+                        return
+                    acc.ev()
+                    acc.ntc()
+                    acc.outcome("udp:short")
+                    for kk, m in run_udp_hostile(hostile):
+                        acc.violation(kk, {"hostile": hostile, "udp": True, "seed": None}, m)
+        acc.sample({"hostile": data + b"\x00", "udp": True, "seed": name})
     elif what == "short":
         _, first_bytes, second = item
         for a in first_bytes:
@@ -482,12 +607,15 @@ def run(ctx):
         lens = [0, 1, 4, 24, 0xFFFF]
     for c in cmds:
         items.append(("headers", [c], lens))
+    for name in udp_seeds():
+        for k in range(2):
+            items.append(("udp", name, k, 2))
     return ctx.pmap(__name__, "shard", items)
 
 
 def guards(acc, ctx):
     g = []
-    for k in ("sub", "del", "ins", "trunc", "field", "short", "header"):
+    for k in ("sub", "del", "ins", "trunc", "field", "short", "header", "udp:sub", "udp:trunc", "udp:surplus", "udp:short", "udp:field"):
         if not acc.outcomes.get(k):
             g.append("outcome %s never observed" % k)
     return g
@@ -510,6 +638,8 @@ def replay(case):
         msgs = [v["msg"] for v in acc.violations if v["case"].get("upto") == case["upto"]]
         if msgs:
             return msgs
+    if case.get("udp"):
+        return [m for k, m in run_udp_hostile(case["hostile"], (udp_seed_effect(case["seed"]),) if case.get("seed") else ())]
     allowed = ()
     if case.get("seed") not in (None, "short", "header"):
         allowed = (seed_effect(case["seed"], "thorough", case["placement"]),)
